@@ -149,6 +149,41 @@ Theorem C14_host_memory_abstraction : forall L m i st bs, LinkIoGuest.wfmem L m 
        (Guest.write_at (Guest.rbytes (nth i (LinkIoGuest.M_of L m) Guest.dummy)) (N.to_nat st) bs)).
 Proof. exact LinkIoGuest.M_of_write. Qed.
 
+(* ... the exact form likewise (same PartialBuffer wrapper on both sides) *)
+Theorem C14_read_exact_volatile_from_is_C03s : forall (S : Type) chunk (srcof : S -> list N) (call : callT S),
+  LinkIoGuest.chunk_reader chunk srcof call ->
+  forall L md addr s m count, LinkIoGuest.wfmem L m ->
+  LinkIoGuest.erase (omap (fun x => (LinkIoGuest.abs_rd srcof L (fst x), LinkIoGuest.tr_res (snd x)))
+      (gm_read_exact_volatile_from md (Datatypes.S (Datatypes.S (length L + length (srcof s)))) call L addr s m count)) =
+  LinkIoGuest.erase (Guest.gm_read_exact_volatile_from Guest.find_lin md (LinkIoGuest.M_of L m) addr chunk (srcof s) count).
+Proof. exact @LinkIoGuest.read_exact_volatile_from_same. Qed.
+
+(* write_volatile_to / write_all_volatile_to: for every in-memory sink that accepts each buffer
+   completely ([all_writer], what Guest.v assumes of its Vec<u8> sink), IoGuest's transcription
+   (VolatileSlice get_slice check, the write_all_volatile loop with retry_eintr!, region delegation,
+   try_access) leaves the host memory alone and produces exactly the sink contents and result of
+   Guest.gm_write_volatile_to / gm_write_all_volatile_to on the per-region byte lists *)
+Theorem C14_write_volatile_to_is_C03s : forall (S : Type) (sinkof : S -> list N) (call : callT S),
+  LinkIoGuest.all_writer sinkof call ->
+  forall L m, LinkIoGuest.wfmem L m -> forall md addr s count,
+  LinkIoGuest.erase (omap (fun x => (sinkof (fst (fst x)), LinkIoGuest.tr_res (snd x)))
+      (gm_write_volatile_to md (Datatypes.S (length L)) call L addr s m count)) =
+  LinkIoGuest.erase (Guest.gm_write_volatile_to Guest.find_lin md (LinkIoGuest.M_of L m) addr (sinkof s) count).
+Proof. exact @LinkIoGuest.write_volatile_to_same. Qed.
+
+Theorem C14_write_all_volatile_to_is_C03s : forall (S : Type) (sinkof : S -> list N) (call : callT S),
+  LinkIoGuest.all_writer sinkof call ->
+  forall L m, LinkIoGuest.wfmem L m -> forall md addr s count,
+  LinkIoGuest.erase (omap (fun x => (sinkof (fst (fst x)), LinkIoGuest.tr_res (snd x)))
+      (gm_write_all_volatile_to md (Datatypes.S (length L)) call L addr s m count)) =
+  LinkIoGuest.erase (Guest.gm_write_all_volatile_to Guest.find_lin md (LinkIoGuest.M_of L m) addr (sinkof s) count).
+Proof. exact @LinkIoGuest.write_all_volatile_to_same. Qed.
+
+(* the real `impl WriteVolatile for Vec<u8>` (Impl/Io.v) is such a sink in builds without overflow
+   checks (with them it additionally panics if the Vec would reach 2^64 bytes) *)
+Theorem C14_vec_sink_is_all_writer : LinkIoGuest.all_writer s_data (vec_write_volatile Release).
+Proof. exact LinkIoGuest.vec_is_all_writer. Qed.
+
 Example C14_link_nonvacuous :
   let L := [ {| g_start := 4096; g_len := 6; g_moff := 0 |}; {| g_start := 4102; g_len := 5; g_moff := 6 |} ] in
   let st := {| s_data := [1;2;3;4;5;6;7;8;9;10;11;12]; s_pos := 1; s_out := [] |} in
@@ -172,3 +207,7 @@ Print Assumptions C14_try_access_is_C03s.
 Print Assumptions C14_read_volatile_from_is_C03s.
 Print Assumptions C14_slice_source_is_chunk_reader.
 Print Assumptions C14_host_memory_abstraction.
+Print Assumptions C14_read_exact_volatile_from_is_C03s.
+Print Assumptions C14_write_volatile_to_is_C03s.
+Print Assumptions C14_write_all_volatile_to_is_C03s.
+Print Assumptions C14_vec_sink_is_all_writer.
